@@ -370,12 +370,23 @@ where
         let (pt2, po2) = digests(&sg.proot, &mut pids);
         let (ht2, ho2) = digests(&sg.hroot, &mut hids);
         let mut pj = side_json(&pres, &pids, diff(&ptree, &pt2), diff(&pout, &po2), &sg.proot);
+        if o == "setattr" {
+            // times of the addressed file as the post-step walk found them
+            if let Some(t) = pj["attr"]["id"].as_i64().and_then(|id| ftimes_json(&pids, id)) {
+                pj["ftimes"] = t;
+            }
+        }
         if sg.cfg.via != "direct" && !pj["attr"].is_null() {
             // behind a Vfs st_ino is the Vfs inode number: the file identity is not observable there
             pj["attr"]["id"] = json!(-2);
         }
         let mut hj = side_json(&hres, &hids, diff(&htree, &ht2), diff(&hout, &ho2), &sg.hroot);
         hj["skipped"] = json!(skip);
+        if o == "setattr" {
+            if let Some(t) = hj["attr"]["id"].as_i64().and_then(|id| ftimes_json(&hids, id)) {
+                hj["ftimes"] = t;
+            }
+        }
         ptree = pt2;
         pout = po2;
         htree = ht2;
@@ -525,6 +536,51 @@ fn forked(path: &str, seg: usize, f: impl FnOnce(&mut Trace)) {
     }
 }
 
+/// Deterministic histories for request classes a random history reaches too rarely.
+fn targeted(mode: &str, work: &Path) -> Vec<(Cfg, Vec<J>)> {
+    let base = Cfg { no_open: false, no_opendir: false, ifh: false, host_ino: false, wb: false, cache: 2, xattr: true, seal: false, via: "direct".into() };
+    let mut out = Vec::new();
+    if mode == "c18" {
+        // collapse / insert range with block-aligned ranges strictly inside the three-block file, with and without handles
+        let bs = {
+            let c = cstr(work.as_os_str().as_encoded_bytes());
+            let mut v = std::mem::MaybeUninit::<libc::statvfs64>::zeroed();
+            if unsafe { libc::statvfs64(c.as_ptr(), v.as_mut_ptr()) } == 0 { unsafe { v.assume_init() }.f_bsize as u64 } else { 4096 }
+        };
+        let (collapse, insert, keep) = (libc::FALLOC_FL_COLLAPSE_RANGE, libc::FALLOC_FL_INSERT_RANGE, libc::FALLOC_FL_KEEP_SIZE);
+        for (no_open, ifh) in [(false, false), (true, false), (false, true), (true, true)] {
+            let cfg = Cfg { seal: true, no_open, cache: if no_open { 3 } else { 2 }, ifh, ..base.clone() };
+            let h = if no_open { -1 } else { 0 };
+            let mut ops = vec![json!({"op": "lookup", "p": 0, "name": "big", "nk": "plain"})];
+            ops.push(json!({"op": "open", "n": 1, "flags": libc::O_RDWR}));
+            for (m, off, len) in [(collapse, bs, bs), (insert, bs, bs), (collapse, 0, bs), (collapse | keep, 0, bs), (insert, 0, 2 * bs), (collapse, 0, 2 * bs),
+                                  (0, 0, bs), (libc::FALLOC_FL_PUNCH_HOLE | keep, bs, bs), (libc::FALLOC_FL_ZERO_RANGE, 0, bs), (collapse, 2 * bs, bs), (insert, 3 * bs, bs)] {
+                ops.push(json!({"op": "fallocate", "n": 1, "h": h, "mode": m, "off": off, "len": len}));
+                ops.push(json!({"op": "getattr", "n": 1, "h": -1}));
+            }
+            out.push((cfg, ops));
+        }
+    }
+    if mode == "c05" {
+        // SETATTR with explicit / now / untouched times in every combination, through a handle and by reference
+        for (no_open, ifh) in [(false, false), (true, false), (false, true)] {
+            let cfg = Cfg { no_open, cache: if no_open { 3 } else { 2 }, ifh, ..base.clone() };
+            let mut ops = vec![json!({"op": "lookup", "p": 0, "name": "f1", "nk": "plain"}), json!({"op": "open", "n": 1, "flags": libc::O_RDWR}),
+                               json!({"op": "lookup", "p": 0, "name": "d1", "nk": "plain"})];
+            let mut k = 0u64;
+            for valid in [vec!["ATIME", "MTIME"], vec!["MTIME"], vec!["ATIME"], vec!["ATIME", "MTIME", "MTIME_NOW"], vec!["ATIME", "ATIME_NOW", "MTIME"]] {
+                for (n, h) in [(1, -1i64), (1, if no_open { -1 } else { 0 }), (2, -1)] {
+                    k += 1;
+                    ops.push(json!({"op": "setattr", "n": n, "h": h, "valid": valid,
+                                    "attr": {"atime": 1_500_000 + k, "atime_ns": 100_000_000 + k, "mtime": 2_500_000 + k, "mtime_ns": 300_000_000 + k}}));
+                }
+            }
+            out.push((cfg, ops));
+        }
+    }
+    out
+}
+
 fn main() {
     let args: Vec<String> = std::env::args().collect();
     if args.len() < 6 {
@@ -553,6 +609,18 @@ fn main() {
                 let mut sg = Seg { seg, cfg, mode: sc["mode"].as_str().unwrap_or(&mode).to_string(), proot: work.join("P"), hroot: work.join("H"), ops: Some(ops), len: 0,
                                    rng: r2, gentle: false, tr, src: sc["src"].as_str().unwrap_or("tlc").to_string() };
                 run_segment(&mut sg, if sc["tree"].is_null() { None } else { Some(&sc["tree"]) });
+            });
+            seg += 1;
+        }
+    }
+    // targeted deterministic histories next to the random ones
+    if nseg > 0 {
+        for (cfg, ops) in targeted(&mode, &work) {
+            let r2 = Rng::new(rng.next());
+            let m2 = mode.clone();
+            forked(&tpath, seg, |tr| {
+                let mut sg = Seg { seg, cfg, mode: m2, proot: work.join("P"), hroot: work.join("H"), ops: Some(ops), len: 0, rng: r2, gentle: false, tr, src: "targeted".into() };
+                run_segment(&mut sg, None);
             });
             seg += 1;
         }
